@@ -8,7 +8,9 @@ props = [json.loads(l) for l in open(os.path.join(V, "properties.jsonl"))]
 TRUST = "Trusted: rustc type checking/trait resolution/MIR construction (nightly, opt-level 0) as dumped by factgen; the std/hashlink/encoding_rs semantics named in the evidence file's trusted_base."
 
 CLAIMS = {
- "C11": dict(cat="other", tech="call-graph and type-graph SCC analysis (Tarjan) over resolved MIR callees; depth-guard dominance; who-may-write inventory of flow_level",
+ "C01": dict(cat="other", tech="abstract interpretation of the scanner MIR over buffered-character bounds (E1, per capacity, one premise-checked relational lemma), forward must-analysis of the token slot, dominance rules, loop/progress classification, panic-site inventory with review table",
+   text="For every analysed capacity (quick 8/16/128; thorough 8/9/15/16/17/64/128/1024) every peek/peek_nth/skip/skip_n/raw read of the scanner and of the provided Input methods is covered by a prior lookahead and no request exceeds the capacity (all inputs, all paths); the in-repo inputs advertise enough capacity; fetch_token is only reached with the peek slot filled; skip_ws_to_eol/as_hex/flow_level/simple_keys preconditions hold by dominance; every natural loop of scanner, inputs, parser and loader has a progress step on every cycle (two relational loops are reviewed exceptions, ten loops only have a may-consume step) and every non-error return of fetch_next_token consumed or queued something; all remaining panic-capable constructs on the parsing paths are discharged mechanically (length tests, constant divisors, usize counters) or covered by the reviewed per-(function, kind) table, so a new unwrap/index/arith site is reported. A review gate, not a proof of panic freedom: invariants I1-I5 are reviewed, linear time is not decided.",
+   design="DESIGN.md §4 C01", note="The documented contract of trait Input; finiteness of std iterators; invariants I1-I5 of tables/panic_review_parse.json; the two reviewed loop exceptions. " + TRUST), "C11": dict(cat="other", tech="call-graph and type-graph SCC analysis (Tarjan) over resolved MIR callees; depth-guard dominance; who-may-write inventory of flow_level",
    text="Every recursion cycle of both crates (resolved call graph incl. trait fan-out, closures, fn items as values) and every recursive node type x structural trait used by load/drop is enumerated; each must be cut by a depth guard or is reported. Today 6 call cycles and 22 type x trait recursions are genuine, unrepaired defects (known findings, one key each); any new cycle, any cycle entering the pull parser/scanner/loader handler, or loss of the checked_add bound on flow depth is a new violation. Frame sizes are not computed.",
    design="DESIGN.md §4 C11", note="Stack growth proportional to nesting needs a call cycle or recursive structural code; std collections call their elements' impls. " + TRUST),
  "C16": dict(cat="proof", tech="forward container-emptiness data-flow, loop/accumulator shape rule, guard=>Err dominance, writer inventory on MIR",
